@@ -27,6 +27,13 @@ func main() {
 		cmdCheck(os.Args[2:])
 	case "replay":
 		cmdReplay(os.Args[2:])
+	case "ssa":
+		ov, _ := loadOverlay("/repo", "/verif/harness")
+		eng, err := sym.Load("/repo", ov)
+		if err != nil {
+			fatal2("%v", err)
+		}
+		eng.DumpSSA(os.Args[2], os.Args[3])
 	default:
 		usage()
 	}
@@ -142,6 +149,10 @@ func printReport(rep *sym.Report) {
 		m := sym.RenderModel(sym.ModelOrder(v.Model), v.Model)
 		mb, _ := json.Marshal(m)
 		fmt.Printf("  VIOLATION %s %s: %s at %s\n     model %s\n", v.Kind, v.ID, v.Msg, v.Site, mb)
+		if len(v.Notes) > 0 {
+			nb, _ := json.Marshal(v.Notes)
+			fmt.Printf("     notes %s\n", nb)
+		}
 		if len(v.Stack) > 0 {
 			fmt.Printf("     stack %s\n", strings.Join(v.Stack, " <- "))
 		}
